@@ -72,3 +72,11 @@ pure("C34",
      {"evaluations": 200000, "pile_roundtrip_ok": 50000, "decimal_accept": 2000, "decimal-to-integer_accept": 1000},
      miri=False, budget_quick=15)
 NOT_APPLICABLE = {}
+
+pure("C36",
+     "differential monitor: Settings::merge (real clap parsing, env map, YAML config found through every route) vs a table-driven reference of the documented precedence, compared through serde_json",
+     "Exploration over configurations: for every one of the 25 settings keys all 2^3 source-presence subsets with pairwise distinct values through each of 5 config-file routes (enumerated), every chain through every flag spelling, then tens of thousands of random joint assignments of all keys.",
+     "case = (flags, ORD_ env map, config file contents, chain spelling, config route in {--config, ORD_CONFIG, --config-dir, ORD_CONFIG_DIR, <data-dir>/ord.yaml, none}); expected = flag > env > file > default per key, OR for switches, union for hidden, derived cookie/data-dir/index paths per chain. distinct = per-key source-presence vectors x route.",
+     {"evaluations": 5000, "merge_ok": 5000, "per_key_subsets_enumerated": 1},
+     miri=False, release=False, budget_quick=10, budget_thorough=90)
+NOT_APPLICABLE = {}
